@@ -859,6 +859,25 @@ mod response {
         }
     }
 
+    /// Removes the connection-specific headers (RFC 9113 §8.2.2) an extension may have left on
+    /// its response. They only have a meaning in HTTP/1, and [`h2`] refuses to send a response
+    /// which contains them: the client would get a reset stream instead of the response.
+    #[cfg(feature = "http2")]
+    fn remove_connection_specific_headers(headers: &mut HeaderMap) {
+        for name in [
+            "connection",
+            "keep-alive",
+            "proxy-connection",
+            "transfer-encoding",
+            "upgrade",
+        ] {
+            headers.remove(name);
+        }
+        if headers.get("te").map_or(false, |te| te != "trailers") {
+            headers.remove("te");
+        }
+    }
+
     impl ResponsePipe {
         /// You must ensure the [`Response::version()`] is correct before calling this function.
         /// It can be guaranteed by first calling [`Self::ensure_version()`]. Also call
@@ -902,13 +921,16 @@ mod response {
                     Ok(ResponseBodyPipe::Http1(s))
                 }
                 #[cfg(feature = "http2")]
-                Self::Http2(mut s) => match s.send_response(response, end_of_stream) {
-                    Err(ref err) if err.get_io().is_none() && err.reason().is_none() => {
-                        Err(Error::ClientRefusedResponse)
+                Self::Http2(mut s) => {
+                    remove_connection_specific_headers(response.headers_mut());
+                    match s.send_response(response, end_of_stream) {
+                        Err(ref err) if err.get_io().is_none() && err.reason().is_none() => {
+                            Err(Error::ClientRefusedResponse)
+                        }
+                        Err(err) => Err(err.into()),
+                        Ok(pipe) => Ok(ResponseBodyPipe::Http2(pipe, H2SendResponse::Initial(s))),
                     }
-                    Err(err) => Err(err.into()),
-                    Ok(pipe) => Ok(ResponseBodyPipe::Http2(pipe, H2SendResponse::Initial(s))),
-                },
+                }
                 #[cfg(feature = "http3")]
                 Self::Http3(mut s) => match s.send_response(response).await {
                     Err(ref err)
@@ -975,6 +997,7 @@ mod response {
                 Self::Http2(mut s) => {
                     let mut response = response;
                     *response.version_mut() = Version::HTTP_2;
+                    remove_connection_specific_headers(response.headers_mut());
 
                     match s.send_response(response, end_of_stream) {
                         Err(err) => Err(err.into()),
